@@ -179,6 +179,9 @@ package main
 //@   trace[C10,bad-key-list-fails-the-start] each main.newCipherListFromConfig satisfies $res1 != nil ==> result != nil
 //@   trace[C07,one-cache-for-all-services] each service.WithReplayCache satisfies $arg0 == &s.replayCache
 //@   trace[C07,every-service-gets-the-cache] each service.NewShadowsocksService satisfies evcount("service.WithReplayCache") >= 1
+//@   trace[C14,every-service-uses-the-servers-nat-timeout] each service.WithNatTimeout satisfies $arg0 == s.natTimeout
+//@   trace[C14,every-legacy-service-gets-the-nat-timeout] loop 2 exactly 1 service.WithNatTimeout
+//@   trace[C14,every-configured-service-gets-the-nat-timeout] loop 3 exactly 1 service.WithNatTimeout
 //@   acquires-level 5
 //@   arith-trusted the number of configured access keys does not overflow an int
 //@   requires validServer(s) && lnSet != nil && lnSet.manager != nil
@@ -195,6 +198,8 @@ package main
 
 //@ func RunOutlineServer$1
 //@   props C18
+//@   trace[C10,a-reload-reads-the-same-file-on-the-same-server] loop 1 each main.(*OutlineServer).loadConfig satisfies $arg1 == filename && $arg0 == server
+//@   trace[C10,one-load-per-signal] loop 1 exactly 1 main.(*OutlineServer).loadConfig
 //@   goroutine
 //@   requires validServer(server) && sigHup != nil
 //@ func RunOutlineServer
@@ -203,6 +208,10 @@ package main
 //@   requires replayHistory <= 20000 && validServerMetrics(serverMetrics)
 //@   trace[C07,the-history-remembers-as-many-handshakes-as-configured] each service.NewReplayCache satisfies $arg0 == replayHistory
 //@   trace[C07,one-history-for-the-process] exactly 1 service.NewReplayCache
+//@   trace[C10,the-configuration-named-on-the-command-line-is-loaded] each main.(*OutlineServer).loadConfig satisfies $arg1 == filename && $arg0 == server && (result.1 == nil ==> result.0 == server)
+//@   trace[C10,loaded-once-at-start] exactly 1 main.(*OutlineServer).loadConfig
+//@   trace[C10,a-start-that-fails-to-load-fails] each main.(*OutlineServer).loadConfig satisfies $res0 != nil ==> result.1 != nil && result.0 == nil
+//@   trace[C14,C16,the-configured-nat-timeout-is-the-servers] holds result.1 == nil ==> result.0.natTimeout == natTimeout && result.0.serviceMetrics == serviceMetrics && result.0.serverMetrics == serverMetrics
 
 // newCipherListFromConfig: per configured key, an entry is appended exactly when its (cipher, secret)
 // pair has not been seen before in this service, built from this key's own ID, cipher and secret, and
